@@ -221,6 +221,7 @@ static const char *cv_name(const void *cv, char *tmp) {
 static long n_switch = 0, n_bgdone = 0, n_bgwait = 0, n_wwait = 0, n_grp_multi = 0, n_grp = 0, n_l0max = 0, n_verchg = 0;
 static volatile long n_spur = 0, n_dropped = 0;
 static uint64_t last_logn = 0; static int last_bgs = 0; static const void *last_ver = NULL;
+static int p_poolwait = 0;   /* usec: every wait on a condition variable other than the DB's is preceded by a sleep (the waiter holds its mutex): widens the check-then-wait window of the thread pool */
 static int p_failsync = 0;   /* fault injection: the n-th fsync/fdatasync of a table file fails with EIO (0 = off) */
 static volatile long n_tsync = 0; static unsigned char g_istable[4096];
 static volatile long n_logsync = 0; static unsigned char g_islog[4096];   /* fsyncs of write-ahead logs (group-commit durability, C02) */
@@ -314,6 +315,7 @@ int __wrap_pthread_cond_wait(pthread_cond_t *c, pthread_mutex_t *m) {
     me->where = W_RUN;
     r = 0;
   } else {
+    if (!db && p_poolwait > 0) { struct timespec ts; ts.tv_sec = 0; ts.tv_nsec = (long)p_poolwait * 1000L; nanosleep(&ts, NULL); }
     me->obj = c; me->where = W_WAIT;
     r = __real_pthread_cond_wait(c, m);
     me->where = W_RUN;
@@ -684,6 +686,7 @@ static void parse_params(int argc, char **argv) {
     else if (!strcmp(argv[i], "pct_k")) p_pct_k = v;
     else if (!strcmp(argv[i], "reopen")) p_reopen = v;
     else if (!strcmp(argv[i], "failsync")) p_failsync = v;
+    else if (!strcmp(argv[i], "poolwait")) p_poolwait = v;
     else if (!strcmp(argv[i], "dropsig")) p_dropsig = v;
     else if (!strcmp(argv[i], "dropbc")) p_dropbc = v;
     else if (!strcmp(argv[i], "keys")) p_keys = strdup(eq + 1);
